@@ -6,12 +6,15 @@ from . import xpath_common as X
 def norm(v):
     return 'err' if v.startswith('err') else v
 
-def exhaustive_items():
-    """all (axis x node test x small predicate) triples on the fixed documents of the C06 stream"""
+def exhaustive_items(quick=False):
+    """all (context kind x axis x node test x small predicate) combinations on the fixed documents of the C06
+    stream; the quick tier keeps every context kind, axis and node test and thins the predicates"""
     out = []
     preds = ['', '[1]', '[last()]', '[position() = 2]', '[@x]', '[. = "t"]', '[count(*) > 0]']
+    if quick:
+        preds = ['', '[1]', '[last()]']
     for d in X.KIND_DOCS[:3] + ['<r><a x="1">t<b/><b x="2">5</b></a><a/>z<c><a><b>t</b></a></c></r>']:
-        for sel in ['//*', '//node()', '/*', '//b']:
+        for sel in ['//*', '//node()', '/*', '//b', '//@*', '//*/@x', '//text()', '//comment()', '/']:      # every kind of context node, attributes included
             for t in ['node()', '*', 'text()', 'a', 'b', 'comment()']:
                 ex = []
                 for ax in X.AXES:
@@ -88,9 +91,9 @@ def check(run):
     for it in items:                       # the property is claimed in the merged-text view, XPath 1.0 has no default binding
         it['merged'] = True
         it['binds'] = [b for b in it['binds'] if b[0] is not None]   # every prefix the expressions use stays bound (p, q and, for default-namespace documents, d)
-    ex = exhaustive_items()
+    ex = exhaustive_items(quick)
     if quick:
-        ex = ex[::6]
+        ex = [it for k, it in enumerate(ex) if len(it['exprs']) and ('//' not in it['exprs'][0][2:] or k % 3 == 0)]   # the mid-path // family is thinned, the axis family is complete
     items += ex + scalar_items() + X.corpus_items('C05')
     res, okm = X.evaluate(items, spec=True)
     if not okm:
